@@ -54,8 +54,8 @@ pub fn convert_range_slice(
             }),
             args: vec![
                 convert_node(from, imp, state, ctx)?,
-                if !inclusive {
-                    Core::Sub {
+                if *inclusive {
+                    Core::Add {
                         left: Box::from(convert_node(to, imp, state, ctx)?),
                         right: Box::from(Core::Int {
                             int: String::from("1"),
